@@ -86,10 +86,10 @@ Fixpoint preorder (n : tree) : list Z :=
   match n with E => [] | T l k _ r _ _ => k :: preorder l ++ preorder r end.
 
 (* real height / size, recomputed *)
-Fixpoint height (n : tree) : Z :=
-  match n with E => 0 | T l _ _ r _ _ => Z.max (height l) (height r) + 1 end.
-Fixpoint size (n : tree) : Z :=
-  match n with E => 0 | T l _ _ r _ _ => size l + size r + 1 end.
+Fixpoint real_height (n : tree) : Z :=
+  match n with E => 0 | T l _ _ r _ _ => Z.max (real_height l) (real_height r) + 1 end.
+Fixpoint real_size (n : tree) : Z :=
+  match n with E => 0 | T l _ _ r _ _ => real_size l + real_size r + 1 end.
 
 Fixpoint sorted_keysb (l : list (Z * Z)) : bool :=
   match l with
@@ -102,8 +102,8 @@ Fixpoint shapeb (n : tree) : bool :=
   match n with
   | E => true
   | T l _ _ r h s =>
-    shapeb l && shapeb r && (h =? height n) && (s =? size n) &&
-    (Z.abs (height l - height r) <=? 1)
+    shapeb l && shapeb r && (h =? real_height n) && (s =? real_size n) &&
+    (Z.abs (real_height l - real_height r) <=? 1)
   end.
 
 Definition okb (n : tree) : bool := sorted_keysb (all n) && shapeb n.
